@@ -104,6 +104,7 @@ class Fn:
         self.rename = rename  # emitted function name (trait impls of the same trait for different types become distinct inherent fns, rule E9)
         self.hide = ()  # spec functions hidden inside this function's body (proof engineering only)
         self.as_inherent = as_inherent  # method of `impl Trait for T` emitted as inherent method of T (call syntax unchanged)
+        self.extra_generics = []  # rule E2: type parameters the function needs because a type it mentions became generic (`Scanner` -> `Scanner<M>`)
 
     @property
     def qual(self):
@@ -477,6 +478,7 @@ class Extractor:
                 generics.append('%s: %s' % (gname, bound2))
                 edits.append((toks[ms].s, toks[me - 1].e, '&' + gname, 'E2'))
                 self.log('E2', what, text[toks[ms].s:toks[me - 1].e], '&%s  [%s: %s]' % (gname, gname, bound2))
+        generics += list(getattr(f, 'extra_generics', []))
         if f.sig_replace:
             for (pat, tmpl) in f.sig_replace:
                 ms, me, caps = self.locate(src, sig_lo, sig_hi, pat, 1, what + ' signature')
